@@ -340,6 +340,132 @@ def r4_6(ctx):
     ctx.floor(rid, n, 40, "frozen (member, operand) emptiness guards")
 
 
+REL_FLAGS = ("nothing", "is_disjoint", "strictly_intersects", "is_included", "saturates", "subsumes")
+# (function, flag compared with) -> why equality is exact there although the producer can return the flag together with others
+R47_EXC = {
+    ("limited_congruence_extrapolation_assign", "is_included"): "Grid::relation_with(cg) combines is_included() with other flags only for an empty or zero-dimensional grid; both cases return before this loop (`x.marked_empty()` / `space_dim == 0` tests at the top)",
+    ("limited_generator_extrapolation_assign", "is_included"): "as for limited_congruence_extrapolation_assign",
+    ("limited_extrapolation_assign", "is_included"): "as for limited_congruence_extrapolation_assign",
+    ("get_limiting_box", "is_included"): "interval_relation adds saturates() only for a singleton interval; the argument y of the widening is a non-empty subset of x, so that interval is the same in y and is not widened: the constraint left out of the limiting box still holds in the result",
+}
+
+
+def _flagset(txt):
+    import re
+    t = txt.replace(" ", "").replace("Parma_Polyhedra_Library::", "").replace("PPL::", "")
+    t = re.sub(r"Poly_(Con|Gen)_Relation::", "", t)
+    parts = t.split("&&")
+    out = set()
+    for p_ in parts:
+        m = re.fullmatch(r"(\w+)\(\)", p_)
+        if not m or m.group(1) not in REL_FLAGS:
+            return None
+        out.add(m.group(1))
+    return frozenset(out)
+
+
+def r4_7(ctx):
+    from rules.c14 import units_alloc
+    rid = "R4.7"
+    ctx.rule(rid, "relation values are flag sets: where the result of relation_with() / interval_relation() is compared with `==` / `!=` against one flag (is_included(), is_disjoint(), saturates(), ...), no return statement of the producer for that class combines the flag with another one (`saturates() && is_included()` for an operand lying on the boundary); otherwise the test must be `.implies(flag)` — as in the difference, upper-bound-if-exact and simplification code of the sibling domains — or the site is tabled with the reason the combined cases cannot reach it. Equality with nothing() is exact")
+    fx = ctx.extract(units_alloc())
+    producers, built, delegates = {}, {}, {}
+    for f in fx.functions:
+        if f.name not in ("relation_with", "interval_relation"):
+            continue
+        rets = [r for r in f.walk() if r["k"] == "return" and r.get("c")]
+        sets = [_flagset(f.text(f.deref(r["c"][0]))) for r in rets]
+        kind = "".join(p["t"] for p in f.params[:2])
+        kind = "Congruence" if "Congruence" in kind else "Generator" if "Generator" in kind else "Constraint"
+        producers.setdefault((f.clsn or "", f.name, kind), []).extend(sets)
+        # flags this producer uses anywhere else than as the whole operand of a return (built up in a variable)
+        direct = set(f.deref(r["c"][0])["i"] for r in rets if f.deref(r["c"][0]) is not None)
+        for c_ in f.calls():
+            if c_["k"] == "call" and f.call_name(c_) in REL_FLAGS and c_["i"] not in direct:
+                par = f.parent.get(c_["i"])
+                while par is not None and par["k"] in ("cast", "paren", "temp", "bind", "construct"):
+                    par = f.parent.get(par["i"])
+                if par is not None and par["k"] == "mcall" and f.call_name(par) == "implies":
+                    continue      # a test of a value, not a way to build one
+                if par is not None and par["k"] in ("ocall", "binop") and par.get("op") in ("==", "!="):
+                    continue
+                built.setdefault((f.clsn or "", f.name, kind), set()).add(f.call_name(c_))
+        # results handed on from another producer (`return gen_sys.relation_with(c)`)
+        for r in rets:
+            e = f.deref(r["c"][0])
+            if e is not None and e["k"] == "mcall" and f.call_name(e) in ("relation_with",):
+                ot_ = (f.call_obj(e) or {}).get("t", "")
+                delegates.setdefault((f.clsn or "", f.name, kind), []).append(ot_)
+    ctx.require(rid, len(producers) >= 10, "producers of relation values found: %d" % len(producers))
+    n = 0
+    seen = set()
+    for f in fx.functions:
+        for x in f.walk():
+            if x["k"] not in ("ocall", "binop") or x.get("op") not in ("==", "!="):
+                continue
+            cs = [f.deref(c) for c in x["c"]][-2:]
+            if len(cs) != 2 or any(c is None for c in cs):
+                continue
+            calls = [c for c in cs if c["k"] in ("mcall", "call") and f.call_name(c) in ("relation_with", "interval_relation")]
+            if len(calls) != 1:
+                continue
+            if (f.relfile, x.get("l")) in seen:
+                continue
+            seen.add((f.relfile, x.get("l")))
+            prod = calls[0]
+            other = cs[1] if cs[0] is prod else cs[0]
+            flag = None
+            if other["k"] == "call" and f.call_name(other) in REL_FLAGS:
+                flag = f.call_name(other)
+            elif other["k"] == "ref" and other.get("dk") == "local":
+                v = [y for y in f.walk() if y["k"] == "var" and y.get("n") == other["n"] and y.get("c")]
+                if len(v) == 1:
+                    fs_ = _flagset(f.text(f.deref(v[0]["c"][0])))
+                    if fs_ is not None and len(fs_) == 1:
+                        flag = next(iter(fs_))
+            ctx.require(rid, flag is not None, "%s:%s: unknown form of the comparison `%s`" % (f.relfile, x.get("l"), f.text(x)))
+            n += 1
+            inst = "%s::%s `%s`" % (f.clsn or "", f.name, f.text(x))
+            if flag == "nothing":
+                ctx.ok(rid, inst, f.where(x))
+                continue
+            # producer of this call: same name, class from the object type (or the enclosing class), argument kind
+            args = f.call_args(prod)
+            at = "".join((f.deref(a) or {}).get("t", "") for a in args[:2] if a is not None) + f.text(prod)
+            kind = "Congruence" if ("Congruence" in at or "cg" in f.text(prod).split("(", 1)[-1][:6]) else "Generator" if ("Generator" in at or "_g" in f.text(prod)) else "Constraint"
+            ot = (f.call_obj(prod) or {}).get("t", "") if prod["k"] == "mcall" else ""
+            cands = [k for k in producers if k[1] == f.call_name(prod) and (k[1] == "interval_relation" or (k[0] and (k[0] in ot or (not any(c_[0] in ot for c_ in producers if c_[0]) and k[0] == (f.clsn or "")))))]
+            cands_k = [k for k in cands if k[2] == kind] or cands
+            ctx.require(rid, bool(cands_k), "%s: no producer found for `%s`" % (inst, f.text(prod)))
+            combos = set()
+            unknown = False
+            todo, done = list(cands_k), set()
+            while todo:
+                k = todo.pop()
+                if k in done:
+                    continue
+                done.add(k)
+                for ot_ in delegates.get(k, ()):
+                    todo += [k2 for k2 in producers if k2[0] and k2[0] in ot_ and k2[1] == "relation_with" and k2[2] == k[2]]
+                for s_ in producers[k]:
+                    if s_ is None:
+                        # a result built up in a variable, or handed on: the flag can be combined only if the
+                        # producer (or the one it delegates to, followed above) uses it outside a plain return
+                        if flag in built.get(k, ()):
+                            unknown = True
+                    elif flag in s_ and len(s_) > 1:
+                        combos.add(" && ".join(sorted(s_)))
+            if not combos and not unknown:
+                ctx.ok(rid, inst, f.where(x))
+            elif (f.name, flag) in R47_EXC:
+                ctx.excepted(rid, inst, f.where(x), R47_EXC[(f.name, flag)])
+            elif combos:
+                ctx.violation(rid, inst, f.where(x), "%s() can come combined with other flags (%s returns %s): the equality is then false although the relation holds — for an operand lying on the boundary of the constraint the branch is not taken; use .implies(%s())" % (flag, "/".join(sorted(set(k[0] + "::" + k[1] for k in cands_k))), "; ".join(sorted(combos)), flag))
+            else:
+                ctx.violation(rid, inst, f.where(x), "the producer builds its result incrementally (a return statement is not a plain conjunction of flags), so %s() may come combined with other flags: use .implies(%s()) or table the site with the reason" % (flag, flag))
+    ctx.floor(rid, n, 8, "equality tests on relation values")
+
+
 def run(ctx):
     ctx.explanation = ("C04 canonical-form protocol on BD_Shape<mpq_class> / Octagonal_Shape<mpq_class>: flag typestate over CFG paths; "
                        "decides the protocol clause (answers cannot depend on whether an operand happens to be closed/reduced), not the closure arithmetic")
@@ -351,3 +477,4 @@ def run(ctx):
     r4_1(ctx, fx)
     r4_4(ctx, fx)
     r4_6(ctx)
+    r4_7(ctx)
